@@ -24,7 +24,8 @@ sets), raw random bytes, or a valid header followed by random bytes. Mutations =
 flip, byte / u32 / u64 substitution with boundary values, range copy, zeroing, appending) and structure level on the decoded \
 inner layers, re-encoded by refimpl with the archive's own key so that valid encryption / compression surrounds them (tail- \
 biased byte edits of the block stream and of the compression layer, forged file index with arbitrary offsets / sizes / eof \
-offsets / name lengths / length field, forged SizesInfo with arbitrary u32 values and counts, very long offset tables, \
+offsets / name lengths / length field, forged SizesInfo with arbitrary u32 values and counts, forged geometry = sizes table announcing up to 1100 extra empty \
+blocks together with an index length that places the index on / next to a block start of the claimed geometry, very long offset tables, \
 removed or duplicated end marker). Script = open, list, get_file + reads (buffer sizes incl. 0), get_hash, linear_extract, \
 repair in both modes, in generated order, continuing after every Err, finally drop. Cases run in worker processes. Oracle: \
 no panic; the worker survives (no abort / stack overflow / signal); source read+seek calls <= 64 x (input length + 4096) per \
@@ -139,6 +140,11 @@ pub enum Mutation {
     /// the chosen compressed block starts with a brotli 'large window' header (window of 2^bits bytes)
     /// followed by `tail`: RFC 7932 streams never do, the writer uses a 4 MiB window
     LargeWindow { block: u8, bits: u8, tail: [u8; 4] },
+    /// two cooperating forged fields of a compressed archive: the sizes table announces `fake` extra blocks of
+    /// compressed size 0 (so that the layer claims to be far longer than it is) and the length field of the file
+    /// index (last 4 bytes of the uncompressed stream) is set so that the index would start at block `k` of the
+    /// claimed geometry, `d` bytes off its start
+    Geometry { fake: u16, front: bool, k: u16, d: i8 },
 }
 
 #[derive(Clone, Copy, Debug, PartialEq, Eq, Hash, Serialize, Deserialize)]
@@ -361,6 +367,40 @@ pub fn build_input(c: &Case) -> (Vec<u8>, Vec<x25519_dalek::StaticSecret>, Vec<S
                                 let mut inner = d.inner[..fstart].to_vec();
                                 inner.extend_from_slice(&refimpl::write_footer(&entries));
                                 bytes = reencode_from_inner(&d, &inner);
+                            }
+                        }
+                    }
+                    Mutation::Geometry { fake, front, k, d: off } => {
+                        if d.layers & 2 != 0 && d.inner.len() >= 4 {
+                            let real_blocks = d.inner.len().div_ceil(BLOCK).max(1);
+                            let last = d.inner.len() - (real_blocks - 1) * BLOCK;
+                            let total = real_blocks + *fake as usize;
+                            let end = (total as u64 - 1) * BLOCK as u64 + last as u64;
+                            let start = (util::idx(*k, total + 1) as u64 * BLOCK as u64).saturating_add_signed(*off as i64);
+                            let len = end.saturating_sub(4).saturating_sub(start) as u32;
+                            let mut inner = d.inner.clone();
+                            let n = inner.len();
+                            inner[n - 4..].copy_from_slice(&len.to_le_bytes());
+                            let comp = refimpl::compress_stream(&inner, Params::current(), 1, 22);
+                            if let Ok((si, sstart)) = refimpl::parse_sizes_info(&comp) {
+                                let zeros = std::iter::repeat(0u32).take(*fake as usize);
+                                let sizes: Vec<u32> = if *front || si.compressed_sizes.is_empty() {
+                                    zeros.chain(si.compressed_sizes.iter().copied()).collect()
+                                } else {
+                                    let (head, tail) = si.compressed_sizes.split_at(si.compressed_sizes.len() - 1);
+                                    head.iter().copied().chain(zeros).chain(tail.iter().copied()).collect()
+                                };
+                                let mut cl = comp[..sstart].to_vec();
+                                let mut f = Vec::new();
+                                f.extend_from_slice(&(sizes.len() as u64).to_le_bytes());
+                                for v in &sizes {
+                                    f.extend_from_slice(&v.to_le_bytes());
+                                }
+                                f.extend_from_slice(&si.last_block_size.to_le_bytes());
+                                let l = f.len() as u32;
+                                f.extend_from_slice(&l.to_le_bytes());
+                                cl.extend_from_slice(&f);
+                                bytes = reencode_from_comp(&d, &cl);
                             }
                         }
                     }
@@ -643,6 +683,7 @@ fn mutation() -> impl Strategy<Value = Mutation> {
         1 => Just(Mutation::DupMarker),
         2 => (if SCALED { 0u16..2000 } else { 0u16..60000 }).prop_map(|extra| Mutation::OverlongBlock { extra }),
         2 => (any::<u8>(), prop_oneof![Just(30u8), Just(28), Just(25), 10u8..31], any::<[u8; 4]>()).prop_map(|(block, bits, tail)| Mutation::LargeWindow { block, bits, tail }),
+        2 => (prop_oneof![0u16..8, 8u16..1100], any::<bool>(), prop_oneof![0u16..2000, any::<u16>()], prop_oneof![3 => Just(0i8), 1 => Just(1i8), 1 => Just(-1i8), 1 => any::<i8>()]).prop_map(|(fake, front, k, d)| Mutation::Geometry { fake, front, k, d }),
     ]
 }
 fn op() -> impl Strategy<Value = Op> {
